@@ -2,3 +2,4 @@
 //! checks live here.
 pub mod crashsim;
 pub mod hist;
+pub mod sched;
